@@ -241,7 +241,7 @@ def grant_guard(cx):
     cx.check(n >= 1, "floor", "at least one granting vote response template exists")
 
 
-@obligation("VOTE.request_fields", ["C03", "C16"], floor=1, kind="message template",
+@obligation("VOTE.request_fields", ["C03", "C16", "C01", "C04"], floor=1, kind="message template",
             why="advertising a better log than it has wins votes it must not get")
 def request_fields(cx):
     ts = tmpls(cx, {"MsgRequestVote", "MsgRequestPreVote"})
